@@ -11,7 +11,7 @@
   All theorems hold for every history (any length), any number of services, any SIDs, any reaction
   scripts; the only hypothesis is `callWF`: caller-supplied timeouts are not negative.
 -/
-import Upnp.Lemmas.C09Reg
+import Upnp.Lemmas.C09Susp
 namespace Upnp.C09
 open Upnp PyDict
 
@@ -31,49 +31,57 @@ theorem request_tables_pinned :
     ∧ unsubSpecOk Gen.C09Gena.unsubReq = true := gen_tables_ok
 
 /-- one step of the invariant: the judge accepts the model's step and the routing table stays the
-    publisher-side fold -/
-theorem step_ok (cfg : Cfg) (probes : List Str) (nsvc : Nat) (rt : Routing) (c : Call) (rs : List Reaction)
+    publisher-side fold — with a requester that answers at once (`susp = false`) or suspends (`susp = true`) -/
+theorem step_ok (cfg : Cfg) (susp : Bool) (probes : List Str) (nsvc : Nat) (rt : Routing) (c : Call) (rs : List Reaction)
     (hn : (keys rt).Nodup) (hw : callWF c)
-    (hs : stepInScope (modelStep cfg probes nsvc rt c rs) = true) :
-    stepOk rt (modelStep cfg probes nsvc rt c rs) = true
-    ∧ (modelStep cfg probes nsvc rt c rs).exch.foldl foldExch rt = (runCall cfg rt c rs).rt := by
-  have h := runCall_ok cfg rt c rs hn hw
-  have hs' : (runCall cfg rt c rs).exch.all exchInScope = true := hs
+    (hs : stepInScope (modelStepS cfg susp probes nsvc rt c rs) = true) :
+    stepOk rt (modelStepS cfg susp probes nsvc rt c rs) = true
+    ∧ (modelStepS cfg susp probes nsvc rt c rs).exch.foldl foldExch rt = (runCallS cfg susp rt c rs).rt := by
+  have h := judgeFacts_runCallS cfg susp rt c rs hn hw
+  have hs' : (runCallS cfg susp rt c rs).exch.all exchInScope = true := hs
   have hm := h.mirror hs'
   refine ⟨?_, hm⟩
   simp only [stepOk, Bool.and_eq_true]
   refine ⟨⟨⟨⟨?_, h.result hs' _ _⟩, h.target _ _⟩, h.fallback⟩, h.valid⟩
-  show routedOk ((runCall cfg rt c rs).exch.foldl foldExch rt) _ = true
+  show routedOk ((runCallS cfg susp rt c rs).exch.foldl foldExch rt) _ = true
   rw [hm]
   exact routedOk_model probes nsvc _ h.nodup _ _ _
 
-theorem history_from (cfg : Cfg) (probes : List Str) (nsvc : Nat) (hist : List (Call × List Reaction))
+theorem history_from (cfg : Cfg) (susp : Bool) (probes : List Str) (nsvc : Nat) (hist : List (Call × List Reaction))
     (hw : ∀ p ∈ hist, callWF p.1) (rt : Routing) (hn : (keys rt).Nodup) :
-    okFrom rt (modelTrace cfg probes nsvc rt hist) = true := by
+    okFrom rt (modelTraceS cfg susp probes nsvc rt hist) = true := by
   induction hist generalizing rt with
   | nil => rfl
   | cons p rest ih =>
     obtain ⟨c, rs⟩ := p
-    simp only [modelTrace, okFrom]
+    simp only [modelTraceS, okFrom]
     split
     · rename_i hs
-      have h := step_ok cfg probes nsvc rt c rs hn (hw (c, rs) List.mem_cons_self) hs
+      have h := step_ok cfg susp probes nsvc rt c rs hn (hw (c, rs) List.mem_cons_self) hs
       rw [h.1, h.2, Bool.true_and]
       exact ih (fun q hq => hw q (List.mem_cons_of_mem _ hq)) _
-        (runCall_ok cfg rt c rs hn (hw (c, rs) List.mem_cons_self)).nodup
+        (judgeFacts_runCallS cfg susp rt c rs hn (hw (c, rs) List.mem_cons_self)).nodup
     · rfl
 
 /-- **C09, main theorem.** For every history of subscribe / renew (by service, by SID, all) /
     unsubscribe (by service, by SID, all) calls, over any number of services, against a publisher that
     answers each request with any status, any / no / another / an empty SID, any TIMEOUT header, a
-    connection error or a timeout: the trace of the model satisfies the judge `C09.ok` — after each call the
-    routed SIDs are exactly those granted and neither unsubscribed nor lost, a call that ended with a grant
-    returns that SID and the granted timeout, a refused renewal is followed by a fresh SUBSCRIBE unless the
-    device was unreachable, every request is valid GENA. -/
-theorem c09_history (cfg : Cfg) (probes : List Str) (nsvc : Nat) (hist : List (Call × List Reaction))
+    connection error or a timeout — and for both requester behaviours (answering at once, or suspending so
+    that renew-all sends every renewal before the first response is processed): the trace of the model
+    satisfies the judge `C09.ok` — after each call the routed SIDs are exactly those granted and neither
+    unsubscribed nor lost, a call that ended with a grant returns that SID and the granted timeout, a refused
+    renewal falls back to exactly one fresh SUBSCRIBE and an unreachable one to none, every request is valid
+    GENA. -/
+theorem c09_history (cfg : Cfg) (susp : Bool) (probes : List Str) (nsvc : Nat) (hist : List (Call × List Reaction))
     (hw : ∀ p ∈ hist, callWF p.1) :
-    ok (modelTrace cfg probes nsvc [] hist) = true :=
-  history_from cfg probes nsvc hist hw [] List.nodup_nil
+    ok (modelTraceS cfg susp probes nsvc [] hist) = true :=
+  history_from cfg susp probes nsvc hist hw [] List.nodup_nil
+
+/-- in the non-suspending model the fallback SUBSCRIBE immediately follows its refused renewal, and an
+    unreachable renewal is never followed by a fresh SUBSCRIBE for its service -/
+theorem fallback_adjacent_sequential (cfg : Cfg) (rt : Routing) (c : Call) (rs : List Reaction)
+    (hn : (keys rt).Nodup) (hw : callWF c) : fallbackAdjacent (runCall cfg rt c rs).exch = true :=
+  (runCall_ok cfg rt c rs hn hw).adjacent
 
 /-- **The registry mirrors the publisher**: after one more call whose exchanges are inside the property's
     domain, the routing table is the publisher-side fold of that call's exchanges. -/
@@ -188,6 +196,10 @@ example : ∀ p ∈ exHist, callWF p.1 := by decide
 /-- the example history is inside the domain at every step and the judge accepts it (evaluated) -/
 example : (modelTrace exCfg [sA, sB, sC] 2 [] exHist).all stepInScope = true := by decide
 example : ok (modelTrace exCfg [sA, sB, sC] 2 [] exHist) = true := by decide
+example : ok (modelTraceS exCfg true [sA, sB, sC] 2 [] exHist) = true := by decide
+/-- with a suspending requester renew-all sends both renewals before the fallback SUBSCRIBE -/
+example : ((runCallS exCfg true [(sA, 0), (sB, 1)] .resubscribeAll [.resp 412 none none, .connErr, .resp 200 (some sC) none]).exch.map
+    fun e => (isRenewal e.req, e.req.svc)) = [(true, 0), (true, 1), (false, 0)] := by decide
 /-- and it is not accepted trivially: dropping the routing update of one step is rejected -/
 example : ok ((modelTrace exCfg [sA, sB, sC] 2 [] exHist).map
     fun s => { s with routed := s.routed.map fun p => (p.1, none) }) = false := by decide
